@@ -94,7 +94,7 @@ pub fn run(ctx: &Ctx, rng: Rng, rep: &mut Report) {
     let histories = ctx.n(ctx.quick_n.unwrap_or(60), ctx.thorough_n.unwrap_or(1500));
     let asyncs = flavors_for(ctx, &[Flavor::Async(Exec::TokioMt), Flavor::Async(Exec::Seeded), Flavor::Async(Exec::ThreadPerTask), Flavor::Async(Exec::TokioCt), Flavor::Async(Exec::AsyncStd)], &ALL_ASYNC);
     let isz = item_size();
-    let watchdog = Duration::from_secs(if ctx.thorough() { 300 } else { 120 });
+    let watchdog = Duration::from_secs(if ctx.thorough() { 300 } else { 180 });
     'outer: for h in 0..histories {
         let mut hrng = rng.derive(h);
         let script = generate(&prof, &mut hrng, ctx.shard * 1_000_000 + h, isz);
